@@ -65,6 +65,7 @@ type sessionUplinkGeneric struct {
 	natConnSendCh <-chan *sessionQueuedPacket
 	natConnPacker zerocopy.ClientPacker
 	natTimeout    time.Duration
+	state         *atomic.Pointer[net.UDPConn]
 	username      string
 	logger        *zap.Logger
 }
@@ -440,6 +441,7 @@ func (s *UDPSessionRelay) recvFromServerConnGeneric(ctx context.Context, lnc *ud
 						natConnSendCh: natConnSendCh,
 						natConnPacker: clientSession.Packer,
 						natTimeout:    lnc.natTimeout,
+						state:         &entry.state,
 						username:      entry.username,
 						logger:        lnc.logger,
 					})
@@ -537,7 +539,7 @@ func (s *UDPSessionRelay) relayServerConnToNatConnGeneric(ctx context.Context, u
 			)
 		}
 
-		err = uplink.natConn.SetReadDeadline(time.Now().Add(uplink.natTimeout))
+		err = extendNATConnReadDeadline(uplink.natConn, uplink.state, uplink.natTimeout)
 		if err != nil {
 			uplink.logger.Error("Failed to set read deadline on natConn",
 				zap.Stringer("clientAddress", &queuedPacket.clientAddrPort),
